@@ -7,9 +7,9 @@ LEVEL = 'model_checking'
 RULE = ('BFS over all operation sequences of the real EventScheduler (src/event.cc, testEvent link set) up to a depth, '
         'operations = schedule(callback, arg, when, weight) / cancel(callback,arg) / cancel(callback,nullptr) / advance the '
         'clock / checkEvents()+AsyncCallQueue::fire(); four alphabets: full (2 callbacks x {a,b,null} x when {0,0.5,1} x '
-        'weight {0,1}, advance {0.5,1}: 45 ops, depth 4 quick / 5 thorough), cancel (when {0,1}, weight 0: 21 ops, depth 5/6), '
-        'time (1 callback, 2 args, when {0,0.5,1,1.5}, both weights: 22 ops, depth 5/6), dup (one callback+arg only, so '
-        'all events are indistinguishable duplicates: 11 ops, depth 6/8); states are deduplicated on the canonical '
+        'weight {0,1}, advance {0.5,1}: 45 ops, depth 3 quick / 4 thorough), cancel (when {0,1}, weight 0, advance 1: 20 ops, depth 5/6), '
+        'time (1 callback, 2 args, when {0,0.5,1,1.5}, both weights: 22 ops, depth 4/5), dup (one callback+arg only, so '
+        'all events are indistinguishable duplicates: 11 ops, depth 6/7); states are deduplicated on the canonical '
         '(real list, model) pair with times relative to the clock; after every new state a drain probe advances the clock '
         'by 50 s and runs the scheduler until idle')
 ASSUME = ['src/event.cc of the current tree as built for tests/testEvent (ASan); cbdata is stubbed in that link set, so all '
@@ -45,7 +45,7 @@ def _result(ctx, m, replaying=False):
         'traces_validated_against_impl': c.get('transitions', 0),
         'states_root_phase': c.get('states_root_phase', 0),
         'subtrees': m['evaluations'], 'subtrees_completed': c.get('subtrees_completed', 0),
-        'bound_completed': (('depth 4 (full) / 5 (cancel, time) / 6 (dup)' if ctx.quick else 'depth 5 (full) / 6 (cancel, time) / 8 (dup)')
+        'bound_completed': (('depth 3 (full) / 5 (cancel) / 4 (time) / 6 (dup)' if ctx.quick else 'depth 4 (full) / 6 (cancel) / 5 (time) / 7 (dup)')
                             if done else 'partial (deadline)'),
         'violating_transitions': c.get('violating_transitions', 0),
         'counters': c, 'outcome_classes': m['outcomes'], 'rule': RULE, 'samples': m['samples'],
